@@ -130,6 +130,15 @@ Theorem C04_account_meta_pit_refuted : exists L l d a pit,
 Proof. exact c04_account_meta_pit_refuted. Qed.
 Print Assumptions C04_account_meta_pit_refuted.
 
+Theorem C04_account_meta_pit_partial : forall L l d a pit,
+  run L = Some d ->
+  dates_monotone (ledger_logs l L) = true ->
+  script_meta_same_date (ledger_logs l L) = true ->
+  pit_not_a_log_date (ledger_logs l L) pit = true ->
+  opit_equiv (get_account_pit d l a pit) (replay_account_meta (ledger_logs l L) a (Some pit)).
+Proof. exact c04_account_meta_pit_partial. Qed.
+Print Assumptions C04_account_meta_pit_partial.
+
 (* ---- transactions (current): row, metadata, reverted flag ------------------------------------------------------------------------ *)
 Definition C04_tx_statement : Prop := forall L l d id,
   run L = Some d -> tx_view_equiv (get_transaction d l id) (replay_tx (ledger_logs l L) id None).
@@ -143,6 +152,17 @@ Theorem C04_tx_partial : forall L l d id,
   tx_view_equiv (get_transaction d l id) (replay_tx (ledger_logs l L) id None).
 Proof. exact c04_tx_partial. Qed.
 Print Assumptions C04_tx_partial.
+
+(* as of a date: visible when its timestamp is not later; metadata = the entries dated up to then; reverted when the
+   reverting transaction is effective by then *)
+Theorem C04_tx_pit_partial : forall L l d id pit,
+  run L = Some d ->
+  all_utc (ledger_logs l L) = true ->
+  dates_monotone (ledger_logs l L) = true ->
+  reverted_at_most_once (ledger_logs l L) id = true ->
+  tx_view_equiv (get_transaction_pit d l id pit) (replay_tx (ledger_logs l L) id (Some pit)).
+Proof. exact c04_tx_pit_partial. Qed.
+Print Assumptions C04_tx_pit_partial.
 
 (* ---- the volumes a transaction reports for itself (aggregates) -------------------------------------------------------------------- *)
 (* two postings from one source: post-commit volumes of the source are those after the first posting ((0,10), not (0,15)) *)
